@@ -239,11 +239,15 @@ def r_tab_err(ctx, rep):
 # R-TAB-T   xlsx cell `t` attribute -> DataRef variant
 
 
+_NUM_CLOSURES = set()
+
+
 def _classify_dataref(b):
     vs = set(variants_built(b, "DataRef"))
     calls = {callee(n) for n in walk_k(b, "Call", "MethodCall")}
     if any(c and c.endswith("format_excel_f64_ref") for c in calls) or any(
-            path_def(n) and path_def(n).endswith("format_excel_f64_ref") for n in walk_k(b, "Path")):
+            path_def(n) and path_def(n).endswith("format_excel_f64_ref") for n in walk_k(b, "Path")) or any(
+            path_local(n) and path_local(n)[1] in _NUM_CLOSURES for n in walk_k(b, "Path")):
         vs.add("<number>")
     errs = [d for d in (variants_built(b, "XlsxError")) ]
     if errs and not vs:
@@ -256,6 +260,12 @@ def r_tab_t(ctx, rep):
     F = ctx.facts("default")
     found = 0
     for fn in F.fns_in("src/xlsx/cells_reader.rs", "src/xlsx/mod.rs"):
+        # a local closure wrapping the number constructor (`let as_number = |n| format_excel_f64_ref(n, ..)`)
+        _NUM_CLOSURES.clear()
+        for l in walk_k(fn.body, "Let"):
+            i = unwrap(l["init"]) if l.get("init") is not None else None
+            if isinstance(i, dict) and i.get("k") == "Closure" and any((callee(c) or "").endswith("format_excel_f64_ref") for c in walk_k(i, "Call", "MethodCall")):
+                _NUM_CLOSURES.update(lid for _, lid in pat_bindings(l["pat"]))
         for m in walk_k(fn.body, "Match"):
             rows = [(k, r, a) for k, r, a in flat_table(m, _classify_dataref) if k[0] in ("str", "path")]
             keys = {k[1] for k, r, a in rows}
@@ -427,6 +437,43 @@ def r_tab_op(ctx, rep):
                         rep.violation("R-TAB-OP", key, loc(m), "%s renders operator token 0x%02X as %r; MS-XLS 2.5.198 says %r" % (fn.name, code, got[code], op))
                     else:
                         rep.holds("R-TAB-OP", key, loc(m), "0x%02X -> %r" % (code, op))
+    # lookup-table form: `OPS[(ptg - FIRST) as usize]` with OPS a constant array of string literals
+    consts = {norm(c["def"]): c for c in F.consts if c.get("body") is not None}
+    for fn in F.user_fns():
+        if fn in found:
+            continue
+        for ix in walk_k(fn.body, "Index"):
+            base = path_def(peel(ix["e"]))
+            c = consts.get(base) if base else None
+            arr = unwrap(c["body"]) if c else None
+            if not (isinstance(arr, dict) and arr.get("k") == "Array" and len(arr.get("es", [])) >= 10):
+                continue
+            strs = [lit_value(e) for e in arr["es"]]
+            if not all(isinstance(x, str) for x in strs):
+                continue
+            idx = unwrap(ix["idx"])
+            while isinstance(idx, dict) and idx.get("k") == "Cast":
+                idx = unwrap(idx["e"])
+            first = None
+            if isinstance(idx, dict) and idx.get("k") == "Binary" and idx["op"] == "-" and path_local(idx["l"]) and isinstance(lit_value(idx["r"]), int):
+                first = lit_value(idx["r"])
+            elif isinstance(idx, dict) and path_local(idx):
+                first = 0
+            if first is None:
+                continue
+            got = {first + i: v for i, v in enumerate(strs)}
+            if not all(3 <= k <= 0x11 for k in got):
+                continue
+            found.append(fn)
+            for code, op in sorted(ops.items()):
+                key = "%s|R-TAB-OP|0x%02X" % (fn.name, code)
+                if code not in got:
+                    rep.violation("R-TAB-OP", key, loc(ix), "%s: operator token 0x%02X (%r) has no entry in %s" % (fn.name, code, op, base))
+                elif got[code] != op:
+                    rep.violation("R-TAB-OP", key, loc(ix), "%s renders operator token 0x%02X as %r (entry %d of %s); MS-XLS 2.5.198 says %r" % (fn.name, code, got[code], code - first, base, op))
+                else:
+                    rep.holds("R-TAB-OP", key, loc(ix), "0x%02X -> %r (%s[%d])" % (code, op, base.rsplit("::", 1)[-1], code - first))
+            break
     if len(found) < 2:
         rep.anchor_missing("R-TAB-OP", "two Ptg operator tables (xls and xlsb parse_formula); found %d" % len(found))
 
